@@ -14,7 +14,7 @@ from fractions import Fraction
 
 from ..common import MachineryError, frame
 from .frames import classify_exc
-from . import history
+from . import envrot, history
 
 HALF_E12 = Fraction(1, 2 * 10 ** 12)
 CFGTYPES = None  # name -> type of the configuration database (set by the property module before forking)
@@ -392,7 +392,14 @@ def parse_payload(m, cls, mid, pbf, P, validate=1):
 
     f = frame(cls, mid, P)
     try:
-        msg = UBXReader.parse(f, msgmode=m, validate=validate, parsebitfield=pbf)
+        with envrot.hostile(envrot.key(bytes(P), cls, mid)):
+            if (len(P) + mid) % 3 == 1:
+                # a caller that owns an earlier result of the same call and has changed its mutable values (array attributes) in place
+                try:
+                    envrot.taint(UBXReader.parse(f, msgmode=m, validate=validate, parsebitfield=pbf))
+                except Exception:  # noqa: BLE001 - the observed call below reports it
+                    pass
+            msg = UBXReader.parse(f, msgmode=m, validate=validate, parsebitfield=pbf)
     except Exception as ex:  # noqa: BLE001
         return None, classify_exc(ex), f
     return msg, "msg", f
@@ -457,4 +464,6 @@ def obs_c02_mt(case):
         os.rmdir(d)
 
 
-OBSERVERS = {"c02": obs_c02, "c02mt": obs_c02_mt}
+from .race import obs_race  # noqa: E402
+
+OBSERVERS = {"c02": obs_c02, "c02mt": obs_c02_mt, "race": obs_race}
